@@ -64,7 +64,7 @@ Definition C03_count_full : Prop :=
 Theorem C03_count_refuted : ~ C03_count_full.
 Proof.
   intros F. destruct w4_count_visible as [Hf [_ [H1 H3]]].
-  specialize (F w4_sys w4_sched Hf). rewrite H1, H3 in F. discriminate.
+  pose proof (F w4_sys w4_sched Hf) as F'. rewrite H3 in F'. rewrite H1 in F'. discriminate F'.
 Qed.
 Print Assumptions C03_count_refuted.
 
